@@ -72,6 +72,73 @@ theorem c16_valid_accepted (s : App) (p : ParamArgs) (hv : paramsValid p = true)
     ∃ s', paramsMsg s .admin p = .ok s' := by
   simp [paramsMsg, isAdmin, hv]
 
+/-! History level: any number of attempts, by anyone, valid or not -/
+
+/-- what x/staking's `Params.Validate` demands of the *stored* parameters -/
+def StoredOk (P : Params) : Prop :=
+  P.unbond > 0 ∧ P.maxVals > 0 ∧ P.maxEntries > 0 ∧ P.denom < 2 ∧ 0 ≤ P.minComm ∧ P.minComm ≤ E18
+
+/-- one attempt: the state after it is the new state when the handler succeeds, the old one when it fails (C06) -/
+def attempt (s : App) (a : Signer × ParamArgs) : App :=
+  match paramsMsg s a.1 a.2 with
+  | .ok s' => s'
+  | .error _ => s
+
+theorem attempt_storedOk (s : App) (a : Signer × ParamArgs) (h : StoredOk s.params) : StoredOk (attempt s a).params := by
+  unfold attempt
+  split
+  · rename_i s' hs
+    obtain ⟨_, hv, rfl⟩ := c16_applied s s' a.1 a.2 hs
+    simp only [paramsValid, Bool.and_eq_true, decide_eq_true_eq] at hv
+    simp only [StoredOk]
+    omega
+  · exact h
+
+/-- **C16c**: "the admin cannot break block production with a parameter typo" — starting from parameters x/staking
+    accepts, after *any* sequence of UpdateStakingParams attempts (any signers, any tuples, valid or not) the stored
+    parameters are still ones x/staking accepts: in particular the validator cap is never zero -/
+theorem c16_history_storedOk (s : App) (as : List (Signer × ParamArgs)) (h : StoredOk s.params) :
+    StoredOk (as.foldl attempt s).params := by
+  induction as generalizing s with
+  | nil => exact h
+  | cons a as ih => exact ih _ (attempt_storedOk s a h)
+
+/-- … and nothing but the parameters ever changes through this message -/
+theorem c16_history_frame (s : App) (as : List (Signer × ParamArgs)) :
+    as.foldl attempt s = { s with params := (as.foldl attempt s).params } := by
+  induction as generalizing s with
+  | nil => rfl
+  | cons a as ih =>
+    simp only [List.foldl_cons]
+    rw [ih]
+    have : attempt s a = { s with params := (attempt s a).params } := by
+      unfold attempt
+      split
+      · rename_i s' hs
+        obtain ⟨_, _, rfl⟩ := c16_applied s s' a.1 a.2 hs
+        rfl
+      · rfl
+    generalize (List.foldl attempt (attempt s a) as).params = P
+    rw [this]
+
+/-- the last successful update wins: the parameters after two successful updates are those of the second alone -/
+theorem c16_last_wins (s s1 s2 : App) (p q : ParamArgs)
+    (h1 : paramsMsg s .admin p = .ok s1) (h2 : paramsMsg s1 .admin q = .ok s2) :
+    paramsMsg s .admin q = .ok s2 := by
+  obtain ⟨_, _, rfl⟩ := c16_applied _ _ _ _ h1
+  obtain ⟨_, hq, rfl⟩ := c16_applied _ _ _ _ h2
+  simp [paramsMsg, isAdmin, hq]
+
+/-- re-submitting the same tuple changes nothing further -/
+theorem c16_idempotent (s s1 : App) (p : ParamArgs) (h1 : paramsMsg s .admin p = .ok s1) :
+    paramsMsg s1 .admin p = .ok s1 := by
+  obtain ⟨_, hp, rfl⟩ := c16_applied _ _ _ _ h1
+  simp [paramsMsg, isAdmin, hp]
+
+/-- non-vacuity: the default parameters are `StoredOk`, and a history with a typo in the middle keeps them so -/
+example : StoredOk { unbond := 1814400000000000, maxVals := 100, maxEntries := 7, hist := 10000, denom := 0, minComm := 0 } := by
+  simp [StoredOk, E18]
+
 /-- non-vacuity -/
 example : paramsValid { unbond := 1814400000000000, maxVals := 100, maxEntries := 7, hist := 10000, denom := 0, minComm := 0 } = true := by decide
 example : paramsValid { unbond := 1814400000000000, maxVals := 0, maxEntries := 7, hist := 10000, denom := 0, minComm := 0 } = false := by decide
